@@ -8,9 +8,9 @@ import c10, common
 
 
 def run(tier, seed, replay):
-    n = 80 if tier == 'quick' else 2000
+    n = 80 if tier == 'quick' else 800
     gate = common.proof_gate('C11', ['Model/Dev.v', 'Proofs/DevProps.v', 'Props/C11.v'])
     return c10.run_foreign('C11', tier, seed, ('read', 'api', 'reopen', 'valid', 'open'), n,
                            'Discard-heavy histories over all cluster kinds; FlatDisk rule of the property; validb on flushed files; reopen sweep.',
                            mix={'W': 25, 'R': 25, 'D': 35, 'F': 8, 'K': 3, 'S': 2, 'N': 2},
-                           plain_n=(60 if tier == 'quick' else 1500), level='proof', gate=gate, sim_n=(40 if tier == 'quick' else 1000))
+                           plain_n=(60 if tier == 'quick' else 600), level='proof', gate=gate, sim_n=(40 if tier == 'quick' else 400))
